@@ -113,6 +113,12 @@ impl<T: ZeroCopy + DeserializeInner, const N: usize> DeserializeHelper<Zero> for
     ) -> deser::Result<<Self as DeserializeInner>::DeserType<'a>> {
         backend.align::<T>()?;
         let bytes = std::mem::size_of::<[T; N]>();
+        if bytes == 0 {
+            // SAFETY: [T; N] is zero-sized, so a well-aligned dangling
+            // pointer is a valid reference to it; `align_to` would return
+            // an empty slice.
+            return Ok(unsafe { core::ptr::NonNull::<[T; N]>::dangling().as_ref() });
+        }
         let (pre, data, after) = unsafe { backend.data[..bytes].align_to::<[T; N]>() };
         debug_assert!(pre.is_empty());
         debug_assert!(after.is_empty());
